@@ -16,6 +16,7 @@ import (
 func init() {
 	ops["esm"] = opEsm
 	ops["regdlv"] = opRegDlv
+	ops["octetpairs"] = opOctetPairs
 	ops["ifver"] = opIfVer
 	ops["ifverparse"] = opIfVerParse
 	ops["timefrom"] = opTimeFrom
@@ -49,6 +50,40 @@ func opEsm(args []string) string {
 		s += " !! C20:esm-bit-positions"
 	}
 	return s
+}
+
+// opOctetPairs: `octetpairs` — decoding must not depend on what the value held before (a reused packet struct, a variable
+// hoisted out of a loop): for all 65536 ordered pairs (previous, current) of esm_class / registered_delivery octets, decoding
+// `current` over a value that already holds `previous` gives what decoding `current` into a fresh value gives.
+func opOctetPairs(args []string) string {
+	for a := 0; a < 256; a++ {
+		for b := 0; b < 256; b++ {
+			var e, fresh pdu.ESMClass
+			_ = e.WriteByte(byte(a))
+			_ = e.WriteByte(byte(b))
+			_ = fresh.WriteByte(byte(b))
+			if e != fresh {
+				return fmt.Sprintf("esm previous=%d current=%d !! C20:esm-decode-depends-on-previous-value previous=%d current=%d", a, b, a, b)
+			}
+			var g, gf pdu.RegisteredDelivery
+			_ = g.WriteByte(byte(a))
+			_ = g.WriteByte(byte(b))
+			_ = gf.WriteByte(byte(b))
+			if g != gf {
+				return fmt.Sprintf("regdlv previous=%d current=%d !! C20:regdlv-decode-depends-on-previous-value previous=%d current=%d", a, b, a, b)
+			}
+			if a%17 == 0 {
+				var iv, ivf pdu.InterfaceVersion
+				_ = iv.UnmarshalJSON([]byte(fmt.Sprintf("%q", pdu.InterfaceVersion(a).String())))
+				_ = iv.UnmarshalJSON([]byte(fmt.Sprintf("%q", pdu.InterfaceVersion(b).String())))
+				_ = ivf.UnmarshalJSON([]byte(fmt.Sprintf("%q", pdu.InterfaceVersion(b).String())))
+				if iv != ivf {
+					return fmt.Sprintf("ifver previous=%d current=%d !! C20:ifver-decode-depends-on-previous-value previous=%d current=%d", a, b, a, b)
+				}
+			}
+		}
+	}
+	return "ok pairs=65536"
 }
 
 func opRegDlv(args []string) string {
@@ -222,6 +257,9 @@ func opDurFmt(args []string) string {
 
 func genC20(r *gen.Rng, tier string, emit func(string)) {
 	for c := 0; c < 256; c++ {
+		if c == 0 {
+			emit("octetpairs")
+		}
 		emit(fmt.Sprintf("esm %d", c))
 		emit(fmt.Sprintf("regdlv %d", c))
 		emit(fmt.Sprintf("ifver %d", c))
